@@ -88,6 +88,9 @@ Step(S0, T0, r) ==
                   (* C04 after a transient failure: the terminal works again, so an obligatory paint (finish, drop, force_draw, println ...) *)
                   (* must reach the terminal again - what it shows is not predicted, that it is painted is                                   *)
                   ELSE IF S0.transient /\ res.forced /\ ~drew THEN "ForcedOK"
+                  (* ... and a stand-alone bar that is finished and cleared stays cleared: no later call paints text for it *)
+                  ELSE IF S0.transient /\ ~S1.multi /\ r.b \in S1.ids /\ r.b \in S0.ids /\ S0.bars[r.b].fin = "hid" /\ S1.bars[r.b].fin = "hid" /\ res.log = <<>>
+                          /\ (\E j \in 1..Len(r.calls) : r.calls[j].u = 0 /\ r.calls[j].k \in {"str", "line"} /\ (\E g \in 1..Len(r.calls[j].c) : r.calls[j].c[g] # 32)) THEN "ClearedOK"
                   ELSE IF r.op \in {"mp_println", "mp_clear"} /\ r.failed > 0 /\ r.ret # "err" THEN "ErrReported"
                   ELSE ""]
     ELSE IF SilentBar(S0, S1, r) /\ (LibCalls(r) # <<>> \/ r.pipe > 0) THEN
